@@ -19,6 +19,12 @@ Proved for ALL inputs:
   free slot that holds fewer than the average of the volume, and an across-racks move keeps the
   destination rack within ceil(14/#racks) by the planner's counters (`across_move_guarded`,
   `within_move_guarded`);
+* free slots by RECOUNT (capacity − shards the bitmaps hold; judge clause `…/target-full-by-recount-of-its-shards`):
+  `addEcVolumeShards` / `deleteEcVolumeShards` keep counter + held shards of a server unchanged, deleting a shard a
+  second time credits nothing (`del_twice_credits_once`: the across-racks step deletes every moved shard twice), so the
+  counter equals the recount at build time and after every sequence of moves and picks (`build_counter_is_recount`,
+  `moves_keep_counter_exact`), an approved destination has a really free slot (`approved_target_has_recounted_slot`)
+  and the recount clause of the judge never fires on such a layout (`recount_clause_silent`);
 * `ceilDiv_is_ceiling`: the model's ceiling division is ⌈a/b⌉ (exact divisions included);
 * `bridge_*`: the guard texts the model was written from (regenerated from the source on every run).
 FALSE of the code (negations proved on witnesses, the corpus holds the same inputs):
@@ -30,6 +36,7 @@ Conservation along whole PHASES of the real planner is judged on every run (Spec
 import SwV.Model.C16
 import SwV.Spec.C16
 import SwV.Lemmas.C16
+import SwV.Lemmas.C16Slots
 import SwV.Gen.C16
 namespace SwV.Props.C16
 open SwV.Model.C16 SwV.Spec.C16
@@ -368,6 +375,127 @@ example : ∃ sn dn, wMove.node? 1 = some sn ∧ wMove.node? 3 = some dn ∧ hol
     copies ((wMove.upd 1 (·.del 1 0)).move 1 3 1 0) 1 0 = copies wMove 1 0 := ⟨_, _, rfl, rfl, by decide, by decide, by decide⟩
 example : withinMoveOk wMove 2 1 1 0 2 = true ∧ ∀ dn, wMove.node? 2 = some dn → holdsShard dn 1 0 = false := by decide
 example : dedupKeepOk wDup 1 0 1 = true ∧ (wDup.nodes.map (·.id)).Nodup := by decide
+
+/-! ### free shard slots by recount
+
+"never plans a shard onto a server that has no free shard slot" is judged against where the shards ARE:
+capacity (`cap`, from the declared topology: (max − active)·10 of the hdd disk) minus the shards held by
+the server's bitmaps (`Spec.recountFree`), not only against the planner's own `freeEcSlot` counter.  On
+the model the two are the same number, always. -/
+open SwV.Lemmas.C16Slots (SlackOk)
+
+/-- `addEcVolumeShards` / `deleteEcVolumeShards`: counter + shards held is unchanged -/
+theorem add_keeps_counter_plus_held (n : ENode) (vid s : Nat) (hs : s < 14) :
+    (n.add vid s).free + ((n.add vid s).total : Int) = n.free + (n.total : Int) := Lemmas.C16Slots.add_slack n vid s hs
+theorem del_keeps_counter_plus_held (n : ENode) (vid s : Nat) :
+    (n.del vid s).free + ((n.del vid s).total : Int) = n.free + (n.total : Int) := Lemmas.C16Slots.del_slack n vid s
+
+theorem delBit_idem (b s : Nat) : delBit (delBit b s) s = delBit b s := by
+  have h := Lemmas.C16.hasBit_delBit b s s
+  simp [hasBit] at h
+  rw [delBit.eq_1 (delBit b s) s]
+  simp [h]
+
+/-- the across-racks step deletes every moved shard twice from its source (`pickNEcShardsToMoveFrom`, then
+    `moveMountedShardToEcNode`): the second deletion credits no free slot -/
+theorem del_twice_credits_once (n : ENode) (vid s : Nat) : ((n.del vid s).del vid s).free = (n.del vid s).free := by
+  have h1 := del_keeps_counter_plus_held (n.del vid s) vid s
+  have h2 : ((n.del vid s).del vid s).total = (n.del vid s).total := by
+    have : ((n.del vid s).del vid s).shards = (n.del vid s).shards ∧ ((n.del vid s).del vid s).hdd = (n.del vid s).hdd := by
+      unfold ENode.del
+      by_cases hh : n.hdd = true
+      · simp only [hh, Bool.not_true, Bool.false_eq_true, if_false, List.map_map, and_true]
+        apply List.map_congr_left
+        intro e _
+        simp only [Function.comp]
+        by_cases hv : (e.1 == vid) = true
+        · simp [hv, delBit_idem]
+        · simp [hv]
+      · have hh2 : n.hdd = false := by simpa using hh
+        simp [hh2]
+    unfold ENode.total
+    rw [this.1, this.2]
+  omega
+
+/-- `collectEcVolumeServersByDc` / `countFreeShardSlots`: at build time the counter is the recount -/
+theorem build_counter_is_recount (id rack : Nat) (hdd : Bool) (max active : Nat) (sh : List (Nat × Nat)) :
+    let n : ENode := ⟨id, rack, freeSlots hdd max active sh, hdd, if hdd then sh else []⟩
+    n.free = recountFree (fun _ => if hdd then ((max : Int) - active) * 10 else 0) n := by
+  cases hdd <;> simp [freeSlots, recountFree, ENode.total]
+
+/-- the model's bookkeeping steps: (dst, vid, s) added / (src, vid, s) deleted / a move -/
+inductive SlotStep where
+  | add (dst vid s : Nat) | del (src vid s : Nat) | move (src dst vid s : Nat)
+
+def SlotStep.ok : SlotStep → Prop
+  | .add _ _ s => s < 14
+  | .del .. => True
+  | .move _ _ _ s => s < 14
+
+def SlotStep.apply (st : ESt) : SlotStep → ESt
+  | .add dst vid s => st.upd dst (·.add vid s)
+  | .del src vid s => st.upd src (·.del vid s)
+  | .move src dst vid s => st.move src dst vid s
+
+/-- after ANY sequence of planned moves, picks (deletions) and additions of shard ids below 14 the counter of
+    every server is still capacity − shards held -/
+theorem moves_keep_counter_exact (cap : Nat → Int) (steps : List SlotStep) : ∀ (st : ESt), SlackOk cap st →
+    (∀ x ∈ steps, x.ok) → SlackOk cap (steps.foldl SlotStep.apply st) := by
+  induction steps with
+  | nil => intro st h _; exact h
+  | cons x xs ih =>
+    intro st h hok
+    simp only [List.foldl_cons]
+    apply ih _ _ (fun y hy => hok y (List.mem_cons_of_mem _ hy))
+    have hx := hok x (List.mem_cons_self ..)
+    cases x with
+    | add dst vid s => exact Lemmas.C16Slots.slackOk_add cap st dst vid s hx h
+    | del src vid s => exact Lemmas.C16Slots.slackOk_del cap st src vid s h
+    | move src dst vid s => exact Lemmas.C16Slots.slackOk_move cap st src dst vid s hx h
+
+/-- a destination approved by the guard of `pickOneEcNodeAndMoveOneShard` has a free slot by recount -/
+theorem approved_target_has_recounted_slot (cap : Nat → Int) (st : ESt) (h : SlackOk cap st) (dst : Nat) (d : ENode)
+    (hd : st.node? dst = some d) (cands : List ENode) (avg vid src : Nat) (hok : destOk cands avg vid src d = true) :
+    recountFree cap d > 0 := by
+  have := h d (Lemmas.C16Slots.mem_of_node? st dst d hd)
+  have := (destOk_sound cands avg vid src d hok).2.1
+  omega
+
+/-- on a layout whose counters are exact, the recount clause of the judge adds nothing -/
+theorem recount_clause_silent (cap : Nat → Int) (st : ESt) (h : SlackOk cap st) (phase : String) (src vid s dst : Nat) :
+    judgeMove phase st src vid s dst (some cap) = judgeMove phase st src vid s dst none := by
+  unfold judgeMove
+  cases hs : st.node? src with
+  | none => rfl
+  | some sn =>
+    cases hd : st.node? dst with
+    | none => rfl
+    | some d =>
+      have e := h d (Lemmas.C16Slots.mem_of_node? st dst d hd)
+      have : (decide (d.free > 0) && decide (recountFree cap d ≤ 0)) = false := by
+        rw [← e]
+        by_cases hp : d.free > 0
+        · have : ¬ d.free ≤ 0 := by omega
+          simp [hp, this]
+        · simp [hp]
+      simp [this]
+
+/-- hypotheses are satisfiable: `wMove` with capacities 8 / 6 / 5, a move and a pick -/
+example : SlackOk (fun id => if id = 1 then 8 else if id = 2 then 6 else 5) wMove ∧
+    (∀ x ∈ [SlotStep.move 1 3 1 0, .del 2 1 3], x.ok) := by
+  refine ⟨?_, ?_⟩
+  · intro n hn
+    simp only [wMove, List.mem_cons, List.mem_nil_iff, or_false] at hn
+    rcases hn with rfl | rfl | rfl <;> decide +kernel
+  · intro x hx
+    simp only [List.mem_cons, List.mem_nil_iff, or_false] at hx
+    rcases hx with rfl | rfl <;> simp [SlotStep.ok]
+
+/-- what the clause catches: a server holding 10 shards with capacity 10 whose counter says 1 (credited
+    twice for a shard it gave away earlier) is planned as a destination -/
+theorem recount_clause_fires_on_phantom_slot :
+    judgeMove "within" ⟨[⟨1, 1, 1, true, [(1, 1023)]⟩, ⟨2, 1, 0, true, [(2, 7)]⟩], [(1, 1)]⟩ 2 2 0 1 (some fun _ => 10) =
+      ["within/target-full-by-recount-of-its-shards"] := by decide +kernel
 
 /-! ### ceiling division -/
 
